@@ -583,7 +583,9 @@ static void run_e2e(bool sc, uint64_t n1, uint64_t c1, uint64_t n2, uint64_t c2,
 
 
 // ---------------------------------------------------------------- AF_INET loopback, active close (no interposed I/O)
-// tcp <sd|ss|cs> <cb|op> <rcvbuf> <chunk> <seed:len,seed:len,...>
+// tcp <sd|ss|cs> <cb|op|opu|opuS> <rcvbuf> <chunk> <seed:len,seed:len,...>
+// (opu: 100 inbound bytes are unread at the close, compared with what the code + kernel do: end=reset; opuS: the same run
+//  judged against the property itself: every byte, then EOF - the recorded finding active-close-unread-inbound)
 // A real TcpServer (sd: TcpServer::disconnect(token), ss: TcpServer::stop()) or TcpClient (cs: TcpClient::stop())
 // on 127.0.0.1, ephemeral port, against a raw non-blocking peer socket with SO_RCVBUF = rcvbuf.  The library side
 // queues all payloads in its connected callback and closes actively at send-complete: from inside that callback
@@ -592,7 +594,7 @@ static void run_e2e(bool sc, uint64_t n1, uint64_t c1, uint64_t n2, uint64_t c2,
 // to do (its kernel buffers are full); after the close it reads until EOF or an error.  No step depends on
 // wall-clock time (a 120 s watchdog turns a hang into `end=timeout`).
 static uint64_t g_tcp_outq_at_close = 0;
-static void run_tcp(const std::string &closer, bool in_cb, bool unread, uint64_t rcvbuf, uint64_t chunk,
+static void run_tcp(const std::string &closer, bool in_cb, bool unread, bool spec, uint64_t rcvbuf, uint64_t chunk,
                     const std::vector<std::pair<uint64_t, uint64_t>> &sizes) {
     using namespace network;
     std::vector<std::vector<uint8_t>> payloads(sizes.size());
@@ -699,8 +701,17 @@ static void run_tcp(const std::string &closer, bool in_cb, bool unread, uint64_t
     g_tcp_want_fd = false; g_tcp_fd = -1;
     std::string sys;
     for (auto &e : g_tcp_sys) { if (!sys.empty()) sys += ","; sys += e; }
-    // with unread inbound data at the close how much still arrives is the kernel's business (oracle `keep`)
-    std::cout << "P tcp got=" << (unread ? std::string("*") : digest((const uint8_t *)got.data(), got.size()))
+    // with unread inbound data at the close how much still arrives is the kernel's business (oracle `keep`): as coded (`opu`)
+    // it is not compared; judged against the property itself (`opuS`) an incomplete stream is named as what it is - an
+    // in-order prefix of what was sent, or not even that
+    std::string gots = digest((const uint8_t *)got.data(), got.size());
+    if (unread && !spec) gots = "*";
+    else if (spec && got.size() != total) {
+        std::string all; all.reserve(total);
+        for (auto &d : payloads) all.append((const char *)d.data(), d.size());
+        gots = (got.size() < total && all.compare(0, got.size(), got) == 0 ? "prefix:" : "corrupt:") + std::to_string(got.size());
+    }
+    std::cout << "P tcp got=" << gots
               << " end=" << (end == 'e' ? "eof" : end == 'r' ? "reset" : "timeout") << " sc=" << sc << " disc=" << disc << "\n";
     std::cout << "M tcp sys=" << (sys.empty() ? "-" : sys) << "\n";
     std::cout << "B tcp-outq-at-close=" << g_tcp_outq_at_close << " tcp-got=" << got.size() << "/" << total << "\n";
@@ -1106,7 +1117,7 @@ int main() {
             pass(EPOLLIN | EPOLLHUP | EPOLLERR | EPOLLRDHUP | EPOLLOUT);
         } else if (op == "tcp" && w.size() == 6) {
             uint64_t rb, ch; std::vector<std::pair<uint64_t, uint64_t>> sizes; bool good = true;
-            if ((w[1] != "sd" && w[1] != "ss" && w[1] != "cs") || (w[2] != "cb" && w[2] != "op" && w[2] != "opu") || !vh::to_u64(w[3], rb) || !vh::to_u64(w[4], ch)
+            if ((w[1] != "sd" && w[1] != "ss" && w[1] != "cs") || (w[2] != "cb" && w[2] != "op" && w[2] != "opu" && w[2] != "opuS") || !vh::to_u64(w[3], rb) || !vh::to_u64(w[4], ch)
                 || rb < 1024 || rb > 1048576 || ch < 256 || ch > 1048576) good = false;
             size_t pos = 0, total = 0;
             while (good) {
@@ -1121,7 +1132,7 @@ int main() {
             if (!good || sizes.size() > 16 || total > 33554432) { std::cout << "bad-op\n"; continue; }
             int saved = g_fd; g_fd = -1;           // no interposed I/O, real clock
             vt::disable();
-            run_tcp(w[1], w[2] == "cb", w[2] == "opu", rb, ch, sizes);
+            run_tcp(w[1], w[2] == "cb", w[2] == "opu" || w[2] == "opuS", w[2] == "opuS", rb, ch, sizes);
             vt::enabled = true;
             g_fd = saved;
             continue;
